@@ -1323,7 +1323,7 @@ def remote_cnot_onto : Stmt :=
                 ])
                 (ret)
             ]))),
-      tryExcept
+      tryCatch
         -- inlined virtualQubit._lock_inreg
         (scope
           (tryExcept
@@ -1339,7 +1339,8 @@ def remote_cnot_onto : Stmt :=
           block [
             release ALL
           ],
-          raise .other
+          -- re-raise of the caught exception
+          raise .remote
         ]),
       tryFinally
         (tryExcept
@@ -1484,7 +1485,7 @@ def remote_cphase_onto : Stmt :=
                 ])
                 (ret)
             ]))),
-      tryExcept
+      tryCatch
         -- inlined virtualQubit._lock_inreg
         (scope
           (tryExcept
@@ -1500,7 +1501,8 @@ def remote_cphase_onto : Stmt :=
           block [
             release ALL
           ],
-          raise .other
+          -- re-raise of the caught exception
+          raise .remote
         ]),
       tryFinally
         (tryExcept
@@ -1643,7 +1645,7 @@ def _two_qubit_gate : Stmt :=
               ])
               (ret)
           ]))),
-    tryExcept
+    tryCatch
       -- inlined virtualQubit._lock_inreg
       (scope
         (tryExcept
@@ -1659,7 +1661,8 @@ def _two_qubit_gate : Stmt :=
         block [
           release ALL
         ],
-        raise .other
+        -- re-raise of the caught exception
+        raise .remote
       ]),
     tryFinally
       (tryExcept
